@@ -258,7 +258,8 @@ ParamsOf(c_) ==
 
 \* admissible parameter sets only: every tree of adm evaluates to a positive rational
 AdmissibleQ(j_, env_) == \A i_ \in 1..Len(Decls[j_].adm) : QSgn(EvalQ(Decls[j_].adm[i_], env_)) > 0
-Evaluable(j_) == InstSeq[j_].ip > 0 \/ Decls[j_].ename = ""     \* TLC evaluates no symbolic exponent
+\* TLC evaluates no symbolic exponent; the quick tier stops at exponent 3 (trees are emitted for all)
+Evaluable(j_) == (InstSeq[j_].ip > 0 /\ (Thorough \/ InstSeq[j_].ip <= 3)) \/ Decls[j_].ename = ""
 ParamLattice == Force([j_ \in 1..NInst |->
                     IF Evaluable(j_) THEN LET T_(e_) == AdmissibleQ(j_, e_) IN SelectSeq(ParamsOf(InstSeq[j_]), T_)
                     ELSE <<>>])
